@@ -514,7 +514,17 @@ func runC20Seq(w *mon.W, seqNo int) {
 			}
 		case op == 13: // WStat
 			spy.take()
-			e.ent.WStat(ctx, p9p.Dir{Name: "n"})
+			// a rename, a length change, a mode change - or the "sync" wstat in which every
+			// field holds its don't-touch value: each is one wstat on the entry's fid
+			wd := []p9p.Dir{
+				{Name: "n"},
+				{Mode: ^uint32(0), Length: 3, AccessTime: time.Unix(int64(^uint32(0)), 0), ModTime: time.Unix(int64(^uint32(0)), 0)},
+				{Mode: 0600, Length: ^uint64(0), AccessTime: time.Unix(int64(^uint32(0)), 0), ModTime: time.Unix(int64(^uint32(0)), 0)},
+				{Type: ^uint16(0), Dev: ^uint32(0), Qid: p9p.Qid{Type: 0xFF, Version: ^uint32(0), Path: ^uint64(0)}, Mode: ^uint32(0), Length: ^uint64(0), AccessTime: time.Unix(int64(^uint32(0)), 0), ModTime: time.Unix(int64(^uint32(0)), 0)},
+				{Mode: ^uint32(0), Length: ^uint64(0)},
+				{},
+			}[w.Rng.Intn(6)]
+			e.ent.WStat(ctx, wd)
 			calls := spy.take()
 			trace = append(trace, fmt.Sprintf("e%d.WStat", e.id))
 			if !expectCalls("WStat", e, calls, "wstat") {
